@@ -28,6 +28,7 @@ type Outcome struct {
 	Violations []ev.Violation // Replay is filled in by the explorer
 	Obs        string         // terminal observation (for counting distinct outcomes)
 	Stats      map[string]int // exercised fault kinds etc.
+	Detail     string         // free-form log printed by --replay
 }
 
 func (o *Outcome) Violate(property, signature, format string, a ...interface{}) {
@@ -702,8 +703,15 @@ func ReplayFile(t *testing.T, path string) int {
 		fmt.Printf("  %2d %s\n", i, c.L)
 	}
 	fmt.Printf("observation: %s\n", r.Outcome.Obs)
+	if r.Outcome.Detail != "" {
+		fmt.Printf("detail:\n%s\n", r.Outcome.Detail)
+	}
 	code := 0
 	for _, x := range r.Outcome.Violations {
+		if v.Property != "" && x.Property != v.Property {
+			fmt.Printf("(also violates %s: %s)\n", x.Property, x.Signature)
+			continue
+		}
 		fmt.Printf("VIOLATION property=%s replay=%s\n  signature=%s\n  %s\n", x.Property, path, x.Signature, x.Message)
 		code = 1
 	}
